@@ -251,6 +251,21 @@ const MAX_OCTAVE: u32 = 10;
 
 const V_MAX: f32 = MAX_OCTAVE as f32;
 
+/// Verification hook: the constants of this module as compiled (`f32` values as bit patterns)
+#[cfg(feature = "verif-hooks")]
+pub fn verif_consts() -> [(&'static str, u32); 8] {
+    [
+        ("NUM_NOTES_PER_OCTAVE", NUM_NOTES_PER_OCTAVE.to_bits()),
+        ("SEMITONE_WIDTH", SEMITONE_WIDTH.to_bits()),
+        ("HALF_SEMITONE_WIDTH", HALF_SEMITONE_WIDTH.to_bits()),
+        ("HYSTERESIS", HYSTERESIS.to_bits()),
+        ("ONE_OCTAVE_IN_MICROVOLTS", ONE_OCTAVE_IN_MICROVOLTS),
+        ("HALF_STEP_IN_MICROVOLTS", HALF_STEP_IN_MICROVOLTS),
+        ("MAX_OCTAVE", MAX_OCTAVE),
+        ("V_MAX", V_MAX.to_bits()),
+    ]
+}
+
 #[cfg(test)]
 #[allow(non_snake_case)]
 mod tests {
